@@ -6,7 +6,7 @@
  "function": "inline_snapshot._external.DiscStorage._lookup_path",
  "verdict": "refuted",
  "backend": "z3-5.1",
- "solver_model": "eq_opq!17 = False\nlen_opq!15 = 0\nmatching_files!13 = mk_List_Rec_PathRec(K(Int, mk_Rec_PathRec(\"\", \"\")), 0)\ntruth_opq15!14 = True\ntruth_opq15!16 = True",
+ "solver_model": "eq_opq!17 = False\nlen_opq!14 = 1\nlen_opq!15 = 0\nmatching_files!13 = mk_List_Rec_PathRec(K(Int, mk_Rec_PathRec(\"\", \"\")), 2)\ntruth_opq15!16 = True",
  "where": ""
 }
 """
